@@ -12,7 +12,7 @@ import copy
 import numpy as np
 import xarray as xr
 
-from common import (RULES, Layout, build_grid, canon_da, dyadic, dyadic_array, enc_arr, enc_grid,
+from common import (RULES, Layout, build_grid, canon_da, dyadic, dyadic_array, enc_arr, enc_grid, fillv,
                     enc_kw, enc_rat, exc_kind, frac, parse_res, pos_len, same_arr)
 
 RULE = ("constructor spellings periodic in {True, False, [], list subsets, dict} x boundary/fill in "
@@ -51,7 +51,7 @@ def gen_case(rng, tier, i):
         periodic = None  # argument omitted
     ctor = {"periodic": periodic,
             "boundary": _spelling(rng, names, lambda: rng.choice(RULES)),
-            "fill_value": _spelling(rng, names, lambda: dyadic(rng))}
+            "fill_value": _spelling(rng, names, lambda: fillv(rng))}
     dims = []
     present = []
     for a in layout.axes:
@@ -72,7 +72,7 @@ def gen_case(rng, tier, i):
         top = L + 1 if rng.random() < 0.15 else min(L, 3)
         widths[n] = [rng.randint(0, top), rng.randint(0, top)]
     call = {"boundary": _spelling(rng, names, lambda: rng.choice(RULES)),
-            "fill_value": _spelling(rng, names, lambda: dyadic(rng)),
+            "fill_value": _spelling(rng, names, lambda: fillv(rng)),
             "widths": widths,
             "op": rng.choice(["diff", "interp"]), "op_axis": rng.choice([n for n, _ in present])}
     return {"layout": {"axes": layout.axes, "extra": layout.extra}, "ctor": ctor,
